@@ -394,6 +394,32 @@ func (e *env) run(in Input) Obs {
 			res = tx.Model(model()).UpdateColumns(map[string]interface{}{"mark": 7})
 		case "delete":
 			res = tx.Delete(model(), inline...)
+		case "delete_value":
+			// the value is passed by value, not by pointer
+			if in.Soft {
+				res = tx.Delete(whr.TS{ID: in.PK})
+			} else {
+				res = tx.Delete(whr.T{ID: in.PK})
+			}
+		case "delete_value_slice":
+			if in.Soft {
+				res = tx.Delete([]whr.TS{{ID: in.PK}})
+			} else {
+				res = tx.Delete([]whr.T{{ID: in.PK}})
+			}
+		case "delete_value_model":
+			if in.Soft {
+				res = tx.Model(whr.TS{}).Delete(whr.TS{ID: in.PK})
+			} else {
+				res = tx.Model(whr.T{}).Delete(whr.T{ID: in.PK})
+			}
+		case "update_softcol":
+			// the update names the soft-delete column itself (a restore): still an ordinary update
+			res = tx.Model(model()).Update("deleted_at", nil)
+		case "updates_map_softcol":
+			res = tx.Model(model()).Updates(map[string]interface{}{"deleted_at": nil, "mark": 7})
+		case "update_columns_softcol":
+			res = tx.Model(model()).UpdateColumns(map[string]interface{}{"deleted_at": nil})
 		case "delete_inline_empty_array":
 			res = tx.Delete(model(), [0]int64{})
 		case "delete_inline_empty_slice":
@@ -545,6 +571,15 @@ func model0(in Input) interface{} {
 	return &whr.T{}
 }
 
+func hasDeco(steps []Step, deco string) bool {
+	for _, s := range steps {
+		if s.Deco == deco {
+			return true
+		}
+	}
+	return false
+}
+
 func hasUnscoped(steps []Step) bool {
 	for _, s := range steps {
 		if s.Deco == "unscoped" {
@@ -611,7 +646,10 @@ func alphabet() []Step {
 }
 
 var finishers = []string{"update", "updates_map", "updates_struct", "updates_struct_nomodel", "update_column", "update_columns", "delete",
-	"delete_inline_empty_array", "delete_inline_empty_slice"}
+	"delete_inline_empty_array", "delete_inline_empty_slice", "delete_value", "delete_value_slice", "delete_value_model"}
+
+// finishers that make sense on the soft-delete model only
+var softFinishers = []string{"update_softcol", "updates_map_softcol", "update_columns_softcol"}
 
 // update values that name the primary-key column: generated only where the chain must be rejected
 // (executed on several rows they end in a UNIQUE violation, which is not this property's business)
@@ -645,7 +683,7 @@ func main() {
 	out := lib.NewOut(a.Out, "C09")
 	out.PerFile = 300
 	add := func(kind string, in Input) {
-		if in.Target == "table_only" {
+		if in.Target == "table_only" || strings.HasPrefix(in.Finisher, "delete_value") {
 			// RETURNING into a destination that is not a model value is outside this property
 			// (gorm scans into Statement.ReflectValue.Addr(), which a map value does not have)
 			for _, s := range in.Steps {
@@ -654,7 +692,14 @@ func main() {
 				}
 			}
 		}
-		o := e.run(in)
+		o := func() (o Obs) {
+			defer func() {
+				if p := recover(); p != nil {
+					o.OtherErr = fmt.Sprintf("panic inside gorm: %v", p)
+				}
+			}()
+			return e.run(in)
+		}()
 		eff := in.PK != 0
 		for _, s := range in.Steps {
 			if s.Call != nil && !whr.IsEmptyUnit(s.Call.Unit) {
@@ -714,8 +759,17 @@ func main() {
 	}
 	rec(nil)
 	for _, ch := range chains {
-		for _, f := range finishers {
+		for _, f := range append(append([]string{}, finishers...), softFinishers...) {
 			for _, soft := range []bool{false, true} {
+				if !soft && strings.HasSuffix(f, "_softcol") {
+					continue
+				}
+				if strings.HasSuffix(f, "_softcol") && hasDeco(ch, "select") {
+					continue // (Select("mark") leaves nothing to set: no statement, no error)
+				}
+				if soft && strings.HasPrefix(f, "delete_value") {
+					continue // (a soft delete writes the stamp into the value: gorm wants a pointer)
+				}
 				for _, al := range allows {
 					for _, pk := range []int64{0, 3} {
 						// length <= 1 chains: every configuration; longer: a sampled fraction
@@ -814,6 +868,13 @@ func main() {
 	}
 	for i := 0; i < budget; i++ {
 		in := Input{Soft: r.Bool(), Allow: lib.Pick(r, []string{"off", "off", "config", "session"}), Finisher: lib.Pick(r, finishers)}
+		if in.Soft && r.Chance(1, 6) {
+			in.Finisher = lib.Pick(r, softFinishers)
+		}
+		if in.Soft && strings.HasPrefix(in.Finisher, "delete_value") {
+			in.Finisher = "delete"
+		}
+		softcol := strings.HasSuffix(in.Finisher, "_softcol")
 		if r.Chance(1, 4) {
 			in.PK = 3
 		}
@@ -866,6 +927,9 @@ func main() {
 		}
 		if in.Finisher == "delete" && in.Target == "" && !in.QueryFirst && r.Bool() {
 			in.InlineLast = true // takes effect when the last step is a Where call
+		}
+		if softcol && hasDeco(in.Steps, "select") {
+			in.Finisher = "update" // (Select("mark") leaves the soft-delete column nothing to set)
 		}
 		if !in.InlineLast && !in.QueryFirst && r.Chance(1, 4) {
 			// one condition call travels through a scope (plain or composed)
